@@ -4,7 +4,8 @@
     (serial = parallel) hold along whole histories with NO [wfb] hypothesis. *)
 From stdpp Require Import sorting.
 From incr Require Import Base Heap HeapSpec HeapProofs EngineDefs Engine EngineRun EngineWf Spec Par ParProofs.
-From incr Require Import EngineLemmas EngineInv EngineInvProofs PassInv PassProofs ParSerial.
+From incr Require Import EngineLemmas EngineLocal EngineInv EngineInvProofs PassInv PassProofs PassPlanProofs ParSerial.
+From incr Require Import StructCongruence.
 
 Local Ltac inv H := inversion H; subst; clear H.
 
@@ -506,6 +507,212 @@ Proof.
   apply (mixed_agree _ _ (mixed_take os os' Hm k) (init mh) sA sB HI V HA HB).
 Qed.
 
+(** * Histories in which ANY subset of the passes is run by ParallelStabilize
+
+    The structural congruence of the operations outside the passes ([StructCongruence.sim_step],
+    with equal node records and the same queued SET) carries [ObsEq] across Observe, Unobserve,
+    AddInput and RemoveInput as well; [PassPlanProofs.pass_total] and [parallel_pass_total] make
+    the second run's passes succeed.  So the mixed history RUNS, and agrees at every boundary. *)
+
+(** ** the operations outside the passes add no update events *)
+Definition lframe (s s' : state) : Prop := exists L, log s' = L ++ log s /\ Forall passEv L.
+
+Lemma lframe_same s s' : log s' = log s -> lframe s s'.
+Proof. intros E. exists []. split; [exact E|constructor]. Qed.
+
+Lemma lframe_hyps : frame_hyps lframe (fun _ _ => True) (fun _ => True).
+Proof.
+  split; try (intros; exact I); try (intros; apply lframe_same; reflexivity).
+  - intros s1 s2 s3 (L1 & E1 & F1) (L2 & E2 & F2). exists (L2 ++ L1). split; [rewrite E2, E1, app_assoc; reflexivity|].
+    apply Forall_app; auto.
+  - intros s e He. exists [e]. split; [reflexivity|]. constructor; [exact He|constructor].
+Qed.
+
+Lemma lframe_trans s1 s2 s3 : lframe s1 s2 -> lframe s2 s3 -> lframe s1 s3.
+Proof. apply (fh_trans _ _ _ lframe_hyps). Qed.
+
+Lemma lframe_updEvents s s' : lframe s s' -> updEvents s' = updEvents s.
+Proof.
+  intros (L & E & F). unfold updEvents. rewrite E, list.filter_app.
+  assert (filter (fun e => isUpdEv e = true) L = []) as ->; [|reflexivity].
+  clear E. induction F as [|e L He F IH]; [reflexivity|]. rewrite filter_cons. destruct (decide (isUpdEv e = true)) as [Hu|_]; [|exact IH].
+  destruct e; try discriminate Hu; destruct He.
+Qed.
+
+Lemma nonpass_lframe s o s' e : static_op o = true -> is_stab o = false -> step s o = Ok (s', e) -> lframe s s'.
+Proof.
+  intros Hso Hns H. destruct o; try discriminate Hso; try discriminate Hns; cbn [step] in H.
+  1-7: apply ok_inv in H as [-> _]; apply (fr_newNode _ _ _ lframe_hyps).
+  - unfold observe in H. match type of H with (if ?c then _ else _) = _ => destruct c end.
+    + apply ok_inv in H as [-> _]. apply lframe_same. reflexivity.
+    + apply ebind_inv in H as (s3 & e3 & E3 & [[-> H]|(Hne & -> & ->)]).
+      * eapply lframe_trans; [|eapply lframe_trans].
+        2: eapply (fr_becameNecessaryRecursive _ _ _ lframe_hyps); exact E3.
+        -- apply lframe_same. reflexivity.
+        -- apply lift_inv in H as [H _]. eapply (fr_propagateInvalidity _ _ _ lframe_hyps); exact H.
+      * eapply lframe_trans; [|eapply (fr_becameNecessaryRecursive _ _ _ lframe_hyps); exact E3]. apply lframe_same. reflexivity.
+  - apply lift_inv in H as [H _]. unfold unobserve in H. destruct (obs s !! o); [|injection H as <-; apply lframe_same; reflexivity].
+    eapply lframe_trans; [|eapply (fr_checkIfUnnecessary _ _ _ lframe_hyps); exact H]. apply lframe_same. reflexivity.
+  - apply lift_inv in H as [H _]. apply (fr_varSet _ _ _ lframe_hyps _ _ _ _ I H).
+  - apply lift_inv in H as [H _]. apply (fr_varUpdate _ _ _ lframe_hyps _ _ _ _ I H).
+  - unfold addInput in H. match type of H with (if ?c then _ else _) = _ => destruct c end.
+    + apply ok_inv in H as [-> _]. apply lframe_same. reflexivity.
+    + apply ebind_inv in H as (s3 & e3 & E3 & [[-> H]|(Hne & -> & ->)]).
+      * eapply lframe_trans; [|eapply lframe_trans].
+        2: eapply (fr_addChild _ _ _ lframe_hyps); exact E3.
+        -- apply lframe_same. reflexivity.
+        -- apply lift_inv in H as [H _]. eapply (fr_setStale _ _ _ lframe_hyps); exact H.
+      * eapply lframe_trans; [|eapply (fr_addChild _ _ _ lframe_hyps); exact E3]. apply lframe_same. reflexivity.
+  - apply lift_inv in H as [H _]. unfold removeInput in H. destruct (negb _); [injection H as <-; apply lframe_same; reflexivity|].
+    apply rbind_ok in H as (s4 & H4 & H).
+    eapply lframe_trans; [|eapply lframe_trans].
+    2: eapply (fr_setStale _ _ _ lframe_hyps); exact H4.
+    + apply lframe_same. reflexivity.
+    + eapply (fr_checkIfUnnecessary _ _ _ lframe_hyps); exact H.
+Qed.
+
+(** ** [ObsEq] and the structural relation with equal records *)
+Lemma ObsEq_SR sA sB : HeapSpec.inv (heap sA) -> HeapSpec.inv (heap sB) -> ObsEq sA sB -> SR true sA sB.
+Proof.
+  intros IA IB Q. pose proof (oe_nodes _ _ Q) as Hn. destruct Q. constructor; try assumption.
+  - intros m. cbn. apply ParProofs.nd_ext. exact Hn.
+  - intros m. unfold has. rewrite Hn. reflexivity.
+  - intros _ m. symmetry. apply (ObsEq_inHeap sA sB m IA IB). constructor; assumption.
+Qed.
+
+Lemma SR_ObsEq sA sB : HeapSpec.inv (heap sA) -> HeapSpec.inv (heap sB) -> SR true sA sB ->
+  updEvents sA = updEvents sB -> ObsEq sA sB.
+Proof.
+  intros IA IB R Hu. pose proof (sr_nd_true _ _ _ R eq_refl) as Hnd. pose proof (sr_has _ _ _ R) as Hh.
+  pose proof (sr_heap _ _ _ R eq_refl) as Hq. destruct R. constructor; try assumption.
+  - apply map_eq. intros m. specialize (Hnd m). specialize (Hh m). unfold nd, has in *.
+    destruct (nodes sA !! m) as [x|], (nodes sB !! m) as [y|]; cbn in *.
+    + congruence.
+    + exfalso. destruct (proj1 Hh) as [? ?]; [eauto|discriminate].
+    + exfalso. destruct (proj2 Hh) as [? ?]; [eauto|discriminate].
+    + reflexivity.
+  - intros x. rewrite <- (inHeap_iff0 sA x IA), <- (inHeap_iff0 sB x IB), Hq. reflexivity.
+Qed.
+
+Lemma wfb_QB s : wfb s = true -> QB s.
+Proof. intros Hwf. apply (Rel_refl s Hwf). Qed.
+
+(** ** a cancelled pass that returns no error found nothing queued *)
+Lemma cancelled_inv p s s' : status s = 0 -> stabilize p true s = Ok (s', None) -> (0 <? Heap.cnt (heap s)) = false.
+Proof.
+  intros Hst H. unfold stabilize in H. rewrite Hst in H. cbn [Z.eqb negb] in H. cbv zeta in H.
+  change (heap (emit EvPassStart (s <| status := 1 |>))) with (heap s) in H.
+  destruct (0 <? Heap.cnt (heap s)); [|reflexivity]. exfalso. simpl in H.
+  destruct (stabilizeEnd _ (Some ECancelled)) as [s2| |]; simpl in H; discriminate.
+Qed.
+
+Lemma cancelled_eq p s : (0 <? Heap.cnt (heap s)) = false -> stabilize p true s = stabilize p false s.
+Proof.
+  intros Hc. unfold stabilize. destruct (negb (status s =? 0)); [reflexivity|]. cbv zeta.
+  change (heap (emit EvPassStart (s <| status := 1 |>))) with (heap s). rewrite Hc. reflexivity.
+Qed.
+
+Lemma ObsEq_cnt sA sB : HeapSpec.inv (heap sA) -> HeapSpec.inv (heap sB) -> ObsEq sA sB ->
+  (0 <? Heap.cnt (heap sA)) = false -> (0 <? Heap.cnt (heap sB)) = false.
+Proof.
+  intros IA IB Q H. apply Z.ltb_ge in H. apply Z.ltb_ge.
+  pose proof (cnt_zero_ids _ IA H) as E. rewrite (inv_cnt _ IB).
+  destruct (Heap.ids (heap sB)) as [|x l] eqn:El; [cbn; lia|]. exfalso.
+  assert (Hx : x ∈ Heap.ids (heap sA)) by (apply (oe_queued _ _ Q); rewrite El; left). rewrite E in Hx. inversion Hx.
+Qed.
+
+(** ** one operation of the two runs *)
+Lemma full_step sA sB o o' sA1 :
+  Inv sA -> ValInv sA -> Inv sB -> ObsEq sA sB -> hist_op sA o = true ->
+  (o' = o \/ (o = Stabilize [] /\ o' = ParStabilize [])) ->
+  step sA o = Ok (sA1, None) ->
+  exists sB1, mixed_op sB o' = true /\ step sB o' = Ok (sB1, None) /\ ObsEq sA1 sB1 /\ Inv sB1.
+Proof.
+  intros HIA VA HIB Q Ho Hv HA.
+  pose proof (Inv_wfb _ HIA) as HwfA. pose proof (Inv_wfb _ HIB) as HwfB.
+  destruct (transfer sA sB HwfA VA Q (wfb_QB sB HwfB)) as [_ VB].
+  pose proof (vi_bf _ VA) as BA. pose proof (vi_bf _ VB) as BB.
+  destruct (wfb_queued sA HwfA) as [IA _]. destruct (wfb_queued sB HwfB) as [IB _].
+  destruct (hist_step sA o sA1 HIA VA Ho HA) as (HIA1 & VA1 & HwfA1).
+  assert (HoB : hist_op sB o = true).
+  { rewrite (hist_op_ext sA sB o); [exact Ho|symmetry; apply (oe_nodes _ _ Q)|symmetry; apply (oe_obs _ _ Q)|symmetry; apply (oe_binds _ _ Q)]. }
+  assert (Hpass : forall eB, PassRes sB eB -> stabilize [] false sA = Ok (sA1, None) -> ObsEq sA1 eB).
+  { intros eB PB HA'. apply (PassRes_agree sA sB sA1 eB HwfA VA Q (serial_PassRes sA sA1 HwfA VA HA') PB). }
+  pose proof Ho as Ho'. unfold hist_op in Ho'. rewrite !andb_true_iff in Ho'. destruct Ho' as [[Hst Hok] Hcl].
+  destruct Hv as [->|[-> ->]].
+  - destruct (is_stab o) eqn:Est.
+    + (* a serial pass in both runs *)
+      assert (HAs : stabilize [] false sA = Ok (sA1, None)) by (apply (hist_pass sA o sA1 Ho); [destruct o; try discriminate Est; reflexivity|exact HA]).
+      destruct (pass_total sB HwfB VB) as [sB1 HBs].
+      assert (HB : step sB o = Ok (sB1, None)).
+      { destruct o; try discriminate Est; try discriminate Hst; cbn [step] in *.
+        - apply bool_decide_eq_true in Hst. subst p. exact HBs.
+        - destruct (wfb_transients sA HwfA) as (HstA & _).
+          pose proof (cancelled_inv [] sA sA1 HstA HA) as Hc.
+          rewrite (cancelled_eq [] sB (ObsEq_cnt sA sB IA IB Q Hc)). exact HBs. }
+      exists sB1. split; [rewrite mixed_op_hist; [exact HoB|intros p ->; discriminate Hst]|]. split; [exact HB|].
+      split; [apply (Hpass sB1 (serial_PassRes sB sB1 HwfB VB HBs) HAs)|].
+      apply (hist_step sB o sB1 HIB VB HoB HB).
+    + (* an operation outside the passes: the structural congruence *)
+      assert (G : Good true sA sB) by (apply wfb_Good; try assumption; apply ObsEq_SR; assumption).
+      destruct (sim_step true sA sB o o sA1 G (wfb_Quiet sA HwfA BA) (qt_fresh _ (wfb_Quiet sB HwfB BB)) eq_refl Hst Est HA)
+        as (sB1 & HB & G1).
+      destruct (hist_step sB o sB1 HIB VB HoB HB) as (HIB1 & VB1 & HwfB1).
+      exists sB1. split; [rewrite mixed_op_hist; [exact HoB|intros p ->; discriminate Hst]|]. split; [exact HB|]. split; [|exact HIB1].
+      apply SR_ObsEq; [apply (wfb_queued sA1 HwfA1)|apply (wfb_queued sB1 HwfB1)|apply (g_sr _ _ _ G1)|].
+      rewrite (lframe_updEvents sA sA1 (nonpass_lframe sA o sA1 None Hst Est HA)),
+              (lframe_updEvents sB sB1 (nonpass_lframe sB o sB1 None Hst Est HB)). apply (oe_upd _ _ Q).
+  - (* the serial pass of the first run, ParallelStabilize in the second *)
+    cbn [step] in HA. destruct (parallel_PassRes sB HwfB VB) as (sB1 & HB & PB).
+    exists sB1. split; [reflexivity|]. split; [exact HB|]. split; [apply (Hpass sB1 PB HA)|].
+    apply (Inv_step_parstabilize_bindfree sB (ParStabilize []) sB1 None HIB (proj1 BB) eq_refl eq_refl HB).
+Qed.
+
+(** ** C04 along histories, in full: replace ANY subset of the passes by ParallelStabilize; the
+    new history runs, and the two runs agree at the end *)
+Theorem mixed_full os os' : par_variant os os' -> forall sA sB sA',
+  Inv sA -> ValInv sA -> Inv sB -> ObsEq sA sB -> hist_run sA os = Some sA' ->
+  exists sB', mixed_run sB os' = Some sB' /\ ObsEq sA' sB' /\ Inv sB'.
+Proof.
+  induction 1 as [|o os os' Hp IH|os os' Hp IH]; intros sA sB sA' HIA VA HIB Q HA.
+  - injection HA as <-. exists sB. auto.
+  - cbn [hist_run] in HA. destruct (hist_op sA o) eqn:Eo; [|discriminate].
+    destruct (step sA o) as [[sA1 [e|]]| |] eqn:EsA; try discriminate.
+    destruct (full_step sA sB o o sA1 HIA VA HIB Q Eo (or_introl eq_refl) EsA) as (sB1 & Hm & HB & Q1 & HIB1).
+    destruct (hist_step sA o sA1 HIA VA Eo EsA) as (HIA1 & VA1 & _).
+    destruct (IH sA1 sB1 sA' HIA1 VA1 HIB1 Q1 HA) as (sB' & HB' & Q' & HI').
+    exists sB'. cbn [mixed_run]. rewrite Hm, HB. auto.
+  - cbn [hist_run] in HA. destruct (hist_op sA (Stabilize [])) eqn:Eo; [|discriminate].
+    destruct (step sA (Stabilize [])) as [[sA1 [e|]]| |] eqn:EsA; try discriminate.
+    destruct (full_step sA sB _ (ParStabilize []) sA1 HIA VA HIB Q Eo (or_intror (conj eq_refl eq_refl)) EsA) as (sB1 & Hm & HB & Q1 & HIB1).
+    destruct (hist_step sA _ sA1 HIA VA Eo EsA) as (HIA1 & VA1 & _).
+    destruct (IH sA1 sB1 sA' HIA1 VA1 HIB1 Q1 HA) as (sB' & HB' & Q' & HI').
+    exists sB'. cbn [mixed_run]. rewrite Hm, HB. auto.
+Qed.
+
+(** from [init], at every boundary *)
+Theorem mixed_history_full mh os os' k sA : (0 < mh)%nat -> par_variant os os' ->
+  hist_run (init mh) (take k os) = Some sA ->
+  exists sB, mixed_run (init mh) (take k os') = Some sB /\ ObsEq sA sB.
+Proof.
+  intros Hmh Hp HA. destruct (init_inv mh Hmh) as [HI V].
+  destruct (mixed_full _ _ (par_variant_take os os' Hp k) (init mh) (init mh) sA HI V HI (ObsEq_refl _) HA) as (sB & HB & Q & _).
+  exists sB. auto.
+Qed.
+
+(** the earlier, partial statement ([mixed]: a common prefix, then steady-state operations only;
+    agreement whenever both histories run) is a special case *)
+Lemma mixed_par_variant os os' : mixed os os' -> par_variant os os'.
+Proof. induction 1; constructor; assumption. Qed.
+
+Corollary mixed_agree_boundaries_full mh os os' k sA sB : (0 < mh)%nat -> mixed os os' ->
+  hist_run (init mh) (take k os) = Some sA -> mixed_run (init mh) (take k os') = Some sB -> ObsEq sA sB.
+Proof.
+  intros Hmh Hm HA HB.
+  destruct (mixed_history_full mh os os' k sA Hmh (mixed_par_variant _ _ Hm) HA) as (sB' & HB' & Q).
+  rewrite HB in HB'. injection HB' as <-. exact Q.
+Qed.
+
 (** * The boolean checker and an example history *)
 Definition hist_ok (mh : nat) (os : list op) : bool :=
   match hist_run (init mh) os with Some _ => true | None => false end.
@@ -537,3 +744,19 @@ Definition mixed_ok (mh : nat) (os : list op) : bool :=
 
 Lemma hx_mixed_pair : mixed hx hx_mixed.
 Proof. unfold hx, hx_mixed. cbn [take app]. repeat first [apply mx_same | apply mx_par; [reflexivity|repeat constructor]]. Qed.
+
+(** passes 1, 3 and 5 of [hx] run by ParallelStabilize: each is followed by operations outside the
+    steady-state alphabet (AddInput; RemoveInput and Unobserve; a SetVar and the last pass) *)
+Definition hx_alt : list op :=
+  [NewVar 1 false; NewVar 2 false; NewMap (Aff 1 1) 0%nat; NewMap (Aff 2 0) 0%nat;
+   NewMap2 (Lin2 1 1 0) 2%nat 3%nat; NewCutoff CParity 4%nat; NewMap (Aff 1 0) 5%nat; NewMapN Sum [1%nat];
+   Observe 6%nat; Observe 7%nat; ParStabilize [];
+   AddInput 7%nat 4%nat; Stabilize [];
+   SetVar 0%nat 3; ParStabilize [];
+   RemoveInput 7%nat 4%nat; Unobserve 9%nat; Stabilize [];
+   Observe 7%nat; SetVar 1%nat 5; ParStabilize [];
+   SetVar 0%nat 2; Stabilize []].
+Definition mixed_final (os : list op) : state := match mixed_run (init 16) os with Some s => s | None => init 0 end.
+
+Lemma hx_alt_variant : par_variant hx hx_alt.
+Proof. unfold hx, hx_alt. repeat first [apply pv_nil | apply pv_same | apply pv_par]. Qed.
